@@ -72,6 +72,14 @@ def run(ctx) -> Result:
             for law, d, _x in bad[:1]:
                 res.failures.append(core.Failure(what=f"C04: {law}: {d}", case=c, signature={"law": law}, observed=d))
     op.campaign(ctx, res, "C04", programs(ctx, 300 if not ctx.thorough else 1200), judge, n_random=3)
+    # identical neighbours in the emitter's script, explored exhaustively under <= 2 pre-emptions: the dispatcher's get()
+    # at every point of the emitter's put() (the coalescing state of the queue must change atomically with the enqueue)
+    twins = [
+        dict(nw=1, nh=1, kind="scripted", scripts={"0": [0, 0, 0, 1, 1]}, threads=[[["schedule", 0, 0], ["start"]]], cbs={}),
+        dict(nw=2, nh=1, kind="scripted", scripts={"0": [0, 0], "1": [0, 0]},
+             threads=[[["schedule", 0, 0], ["schedule", 0, 1], ["start"]]], cbs={}),
+    ]
+    op.campaign(ctx, res, "C04", twins, judge, explore_runs=250 if not ctx.thorough else 3000, tag="twins")
     if ctx.thorough:
         op.campaign(ctx, res, "C04", programs(ctx, 25, small=True), judge, explore_runs=400, tag="x")
         res.notes.append("thorough: 25 small programs explored exhaustively under <=2 pre-emptions (capped at 400 schedules each)")
